@@ -55,3 +55,38 @@ def replay_sequence(thunks, labels):
         if s:
             return s + ":in_a_call_sequence"
     return None
+
+
+def scribble(obj):
+    """overwrite every mutable container reachable from a returned value (what a caller is free to do with its result)."""
+    import numpy as np
+    if isinstance(obj, list):
+        for x in obj:
+            scribble(x)
+        obj.clear()
+    elif isinstance(obj, dict):
+        for x in list(obj.values()):
+            scribble(x)
+        obj.clear()
+    elif isinstance(obj, (set, bytearray)):
+        obj.clear()
+    elif isinstance(obj, np.ndarray):
+        try:
+            obj *= 0
+        except Exception:
+            pass
+    elif isinstance(obj, tuple):
+        for x in obj:
+            scribble(x)
+
+
+def vary_case(msg, k):
+    """hex strings may be given in either letter case: upper, lower or mixed, rotating with k."""
+    if msg is None:
+        return None
+    r = k % 3
+    if r == 0:
+        return msg
+    if r == 1:
+        return msg.lower()
+    return "".join(c.lower() if i % 2 else c for i, c in enumerate(msg))
